@@ -100,6 +100,31 @@ def gen_cases(tier, seed):
                 cfg = dict(multipart_threshold=16, multipart_chunksize=8, io_chunksize=4, max_request_concurrency=2)
                 cases.append({'seed': rng.randrange(1 << 30), 'min_part': 8, 'config': cfg, 'transfers': [t], 'family': 'window',
                               'entry': 'future.cancel', 'yield': {'p': 0.0, 'window': dict(wdw, nth=nth, target=0)}})
+    # Ctrl-C (a real SIGINT delivered to the main thread with pthread_kill) while the user is blocked in result() / shutdown()
+    for bi, base in enumerate(bases()):
+        t = base['transfers'][0]
+        from .c04 import sites_for
+
+        sites = ['@immediate'] + [k for k in sites_for(t) if '/s3:' in k or '/cb:on_progress' in k or '/dst:write' in k or '/fs:write' in k]
+        if quick:
+            sites = sites[:1] + rng.sample(sites[1:], min(2, len(sites) - 1))
+        for site in sites:
+            for how in ('kbi_result', 'kbi_shutdown'):
+                for extra_n in ((0,) if quick else (0, 1)):
+                    s = copy.deepcopy(base)
+                    s['seed'] = rng.randrange(1 << 30)
+                    s['mode'] = how
+                    s['entry'] = how
+                    s['family'] = 'kbi'
+                    for _ in range(extra_n):
+                        s['transfers'].append({'kind': 'upload', 'src': 'path', 'size': 20})
+                    if site == '@immediate':
+                        s['trigger'] = 'immediate'
+                        s['plan'] = {'gate': {'match': '/s3:', 'phase': 'before', 'policy': 'seeded', 'after_cancel_begin': True}}
+                    else:
+                        s['trigger'] = 'event'
+                        s['plan'] = {'cancel': {'at': site, 'phase': rng.choice(['before', 'after']), 'how': how, 'from': 'main'}}
+                    cases.append(s)
     from .. import windows
 
     for sp in windows.cases(rng, 'cancel', 60 if quick else 2500, core_reps=1 if quick else 4, nths=(0, 1) if quick else (0, 1, 2)):
@@ -123,6 +148,17 @@ def evaluate(obs):
         viol.append(oracles.V(f'leaving the manager through {how} raised {obs.shutdown_exc!r}', entry=how, sym='shutdown-raised',
                               exc_type=type(obs.shutdown_exc).__name__))
     cb = [e for e in obs.events if e['kind'] == 'cancel.begin']
+    kbi = getattr(obs, 'kbi', None)
+    if kbi is not None:
+        stats['kbi_sent'] = 1 if kbi.get('sent') else 0
+        stats['kbi_raised'] = 1 if kbi.get('kbi') else 0
+        if kbi.get('sent') and not kbi.get('kbi') and not kbi.get('late_kbi'):
+            viol.append(oracles.V(f'SIGINT was delivered while the main thread was blocked in {how.split("_")[1]}() but no KeyboardInterrupt '
+                                  f'reached the caller (raised instead: {kbi.get("exc")!r})', entry=how, sym='kbi-swallowed'))
+        if how == 'kbi_shutdown' and getattr(obs, 'done_at_barrier', None):
+            nd = [k for k, v in obs.done_at_barrier.items() if v is False]
+            if nd:
+                viol.append(oracles.V(f'shutdown() interrupted by Ctrl-C returned with futures {nd} not done', entry=how, sym='kbi-not-done'))
     for x in obs.xfers:
         if x.outcome is None:
             continue
@@ -147,6 +183,8 @@ def evaluate(obs):
         if how == 'future.cancel':
             tgt = (spec.get('plan', {}).get('cancel') or spec.get('yield', {}).get('window') or {}).get('target', 0)
             targeted = (x.idx == tgt)
+        if how == 'kbi_result':
+            targeted = (x.idx == 0)
         if fam == 'not-started':
             if how == 'future.cancel':
                 not_started = (x.idx == 1)
@@ -154,7 +192,7 @@ def evaluate(obs):
                 not_started = (x.idx >= 1)
         if not_started:
             stats['not_started_checked'] += 1
-        if targeted or how != 'future.cancel':
+        if targeted or how not in ('future.cancel', 'kbi_result'):
             viol += oracles.cancel_oracle(obs, x, how, not_started=not_started, targeted=targeted)
             nontrivial = True
             if x.outcome == 'success':
